@@ -144,6 +144,21 @@ class ConcreteCtx(_Base):
     def preimage(self, digest):
         return None
 
+    def register_digits(self, value, base, digits_le):
+        pass
+
+    def to_str(self, obj):
+        return str(obj)
+
+    def str_index(self, table, ch):
+        return table.find(ch)
+
+    def str_from_table(self, table, idxs):
+        return ''.join(table[i] for i in idxs)
+
+    def str_concat(self, *parts):
+        return ''.join(parts)
+
     def sha256(self, b):
         import hashlib
         return hashlib.sha256(bytes(b)).digest()
@@ -305,6 +320,34 @@ def make_symctx_class():
         def preimage(self, digest):
             p = getattr(digest, 'preimage', None)
             return None if p is None else p[1]
+
+        def register_digits(self, value, base, digits_le):
+            core.register_repr(value, base, digits_le)
+
+        def to_str(self, obj):
+            r = type(obj).__str__(obj)
+            return r
+
+        def str_index(self, table, ch):
+            return vtypes.VStr(table).find(ch)
+
+        def str_from_table(self, table, idxs):
+            out = []
+            for i in idxs:
+                if isinstance(i, core.SymInt):
+                    c = vtypes._select([ord(x) for x in table], i)
+                    if isinstance(c, core.SymInt):
+                        c.tag = ('tbl', table, i)
+                    out.append(c)
+                else:
+                    out.append(ord(table[i]))
+            return vtypes.VStr._mk(out)
+
+        def str_concat(self, *parts):
+            r = vtypes.VStr('')
+            for p in parts:
+                r = r + p
+            return r
 
         def sha256(self, b):
             from . import stubs
